@@ -10,7 +10,8 @@ row list.  Layers:
       strings); every intermediate table is read with python's sqlite3;
   L2  real `cicada -c` processes sharing one database file, cwd = directories with
       the generated names (quotes, the crafted second-row name, percent, ...);
-  L3  interactive pty sessions: leading space / repeat rule against session_run.
+  L3  sequences of 1-3 shell processes on ONE database: interactive pty sessions and `-c history add` processes, the
+      first line of a later session often equal to a row stored by an earlier process; against db_procs / session_run.
 Three predictions are compared for every operation: the model's own row-list
 semantics, sqlite (python client) given the model's template and parameter vector,
 and the implementation; all must equal the property's oracle (the submitted text up
@@ -25,7 +26,8 @@ NEEDS_CICADA = True
 ALLOWED_AXIOMS = []
 PINNED = ["C18_full", "C18_insert_text", "C18_insert_appends", "C18_select_text", "C18_select_params", "C18_select_arity",
           "C18_row_matches", "C18_list_sound", "C18_list_complete", "C18_search_complete", "C18_delete_exact",
-          "C18_delete_text", "C18_record_rule", "C18_record_sound", "C18_record_complete"]
+          "C18_delete_text", "C18_record_rule", "C18_record_sound", "C18_record_complete", "C18_record_independent",
+          "C18_record_first", "C18_record_processes"]
 TRUSTED = [
     "Coq 8.16.1 kernel (coqc; coqchk in thorough); vm_compute only in the Example",
     "hand transcription of the statement templates, parameter vectors and of the main loop's recording rule "
@@ -39,6 +41,8 @@ TRUSTED = [
     "extraction: ExtrOcamlBasic only; ocaml/c18/drv.ml; harness/src/bin/c18.rs; drive/c18.py; python sqlite3 as the independent client",
 ]
 ASSUMES = [
+    "a fresh shell process starts with previous_cmd empty (Shell::new) and history::init does not change it: the repeat "
+    "rule compares only with a line recorded by the same process (C18_record_independent / C18_record_first)",
     "timestamps within one scenario are distinct (sqlite leaves the order of equal tsb unspecified)",
     "no code point 0 in generated texts (argv and the line editor cannot deliver one)",
 ]
@@ -465,12 +469,10 @@ def layer2(ctx, res, V, work):
 
 
 # ------------------------------------------------------------------ L3: interactive sessions
-def pty_session(ctx, work, ix, typed):
+def pty_session(ctx, root, db, typed):
+    """One interactive cicada process on a pty (120x24), cwd = root, database = db (shared with other
+    processes of the sequence); types the lines, then ` exit`. Waits for the prompt before every line."""
     import pty, select
-    root = os.path.join(work, "l3_%d" % ix)
-    os.makedirs(root)
-    db = os.path.join(root, "h.sqlite")
-    mkdb(db)
     env = {"HOME": root, "XDG_CONFIG_HOME": root, "HISTORY_FILE": db, "PATH": "/usr/bin:/bin", "TERM": "xterm",
            "LANG": "C.UTF-8", "HISTORY_DELETE_DUPS": "0"}
     pid, fd = pty.fork()
@@ -480,9 +482,11 @@ def pty_session(ctx, work, ix, typed):
         os.chdir(root)
         os.execve(ctx.cicada, ["cicada"], env)
 
-    def rd(t):
+    def wait_prompt(limit=20.0):
+        """read until a prompt (`$ `) has been printed and the terminal is quiet"""
         out = b""
-        end = time.time() + t
+        end = time.time() + limit
+        quiet_since = None
         while time.time() < end:
             r, _, _ = select.select([fd], [], [], 0.05)
             if r:
@@ -493,78 +497,166 @@ def pty_session(ctx, work, ix, typed):
                 if not b:
                     break
                 out += b
-                end = max(end, time.time() + 0.15)
-        return out
-    rd(1.0)
+                quiet_since = None
+            else:
+                if b"$ " in out:
+                    if quiet_since is None:
+                        quiet_since = time.time()
+                    elif time.time() - quiet_since > 0.2:
+                        return True
+        return False
+    ok = wait_prompt()
     for t in typed:
         os.write(fd, t.encode() + b"\r")
-        rd(0.4)
+        ok = wait_prompt() and ok
     os.write(fd, b" exit\r")
-    rd(0.3)
-    try:
-        os.close(fd)
-    except OSError:
-        pass
-    for _ in range(50):
+    for _ in range(200):
         try:
             p, _ = os.waitpid(pid, os.WNOHANG)
         except ChildProcessError:
             break
         if p:
             break
-        time.sleep(0.05)
+        try:
+            r, _, _ = select.select([fd], [], [], 0.05)
+            if r:
+                os.read(fd, 4096)
+        except OSError:
+            time.sleep(0.05)
     else:
         try:
             os.kill(pid, 9)
             os.waitpid(pid, 0)
         except OSError:
             pass
-    return [r[1] for r in sorted(read_rows(db), key=lambda r: r[0])]
+    try:
+        os.close(fd)
+    except OSError:
+        pass
+    return ok
+
+
+L3_WORDS = ["true", "true a", "true 'it''s'", "true \"it's\" %_", "true a\\\\b ;true )", "true é日", "true -- x", "true  b"]
+L3_SAFE = ["true", "true a", "true  b", "true é日", "echo one >/dev/null", "true -- x"]
+
+
+def ref_session(typed):
+    """the property, for ONE process: every typed line once, except blank / leading-space lines and a line equal to the
+    line recorded just before it IN THIS PROCESS"""
+    prev, exp = None, []
+    for t in typed:
+        if t.startswith(" ") or not t.strip() or t == prev:
+            continue
+        exp.append(t)
+        prev = t
+    return exp
+
+
+def gen_sequence(rng, ix):
+    """1-3 shell processes on one database: interactive sessions and `-c history add` processes.  The first line of a
+    later interactive session is, by construction, often the line recorded last by an earlier process, the newest row by
+    time, or an older row."""
+    procs, stored, by_time = [], [], []
+    nproc = 1 if ix % 4 == 3 else rng.choice([2, 3, 3])
+    for k in range(nproc):
+        if k > 0 and rng.random() < 0.3:
+            line = rng.choice(L3_SAFE + [s for s in stored if "'" not in s and '"' not in s and "\\" not in s][-2:])
+            now = rng.random() < 0.6
+            procs.append({"k": "A", "line": line, "now": now})
+            stored.append(line.strip())
+            if now:
+                by_time.append(line.strip())
+            continue
+        typed = []
+        if stored:
+            r = rng.random()
+            if r < 0.4:
+                typed.append(stored[-1])                      # the row with the greatest rowid
+            elif r < 0.7 and by_time:
+                typed.append(by_time[-1])                     # the row with the greatest tsb
+            elif r < 0.85:
+                typed.append(rng.choice(stored))              # an older row
+        for _ in range(rng.randint(2, 5)):
+            w = rng.choice(L3_WORDS if ix % 2 else L3_SAFE)
+            r = rng.random()
+            if r < 0.25 and typed:
+                w = typed[-1]                                 # immediate repeat
+            elif r < 0.4:
+                w = " " + w                                   # leading space
+            typed.append(w)
+        if k == 0:
+            j = rng.randint(0, len(typed) - 1)
+            typed.insert(j + 1, typed[j])
+            typed.append(" " + rng.choice(L3_SAFE))
+            typed.append(rng.choice(L3_SAFE))
+        procs.append({"k": "I", "typed": typed})
+        rec = ref_session(typed)
+        stored += rec
+        by_time += rec
+    return procs
+
+
+def describe_procs(procs):
+    out = []
+    for i, p in enumerate(procs):
+        if p["k"] == "I":
+            out.append("process %d: interactive cicada on a pty, types %r then ` exit`" % (i + 1, p["typed"]))
+        else:
+            out.append("process %d: cicada -c \"history add %s-- %s\"" % (i + 1, "-t <now> " if p["now"] else "", shq(p["line"])))
+    return out
+
+
+def run_sequence(ctx, work, ix, procs):
+    root = os.path.join(work, "l3_%d" % ix)
+    os.makedirs(root)
+    db = os.path.join(root, "h.sqlite")
+    mkdb(db)
+    ok = True
+    for p in procs:
+        if p["k"] == "I":
+            ok = pty_session(ctx, root, db, p["typed"]) and ok
+        else:
+            ts = ("-t %.3f " % time.time()) if p["now"] else ""
+            cic(ctx, "history add %s-- %s" % (ts, shq(p["line"])), root, db, root)
+    return ok, [r[1] for r in sorted(read_rows(db), key=lambda r: r[0])]
 
 
 def layer3(ctx, res, V, work):
     rng = ctx.rng
-    n = 12 if ctx.thorough else 4
-    words = ["true", "true a", "true 'it''s'", "true \"it's\" %_", "true a\\\\b ;true )", "true é日", "true -- x", "true  b"]
-    sess = []
-    for _ in range(n):
-        typed = []
-        for _ in range(rng.randint(4, 8)):
-            w = rng.choice(words)
-            r = rng.random()
-            if r < 0.25 and typed:
-                w = typed[-1]                       # immediate repeat
-            elif r < 0.45:
-                w = " " + w                         # leading space
-            typed.append(w)
-        k = rng.randint(0, len(typed) - 1)          # every session holds a repeat, a leading-space line, and
-        typed.insert(k + 1, typed[k])               # a line equal to the one before a leading-space line
-        typed.append(" " + rng.choice(words))
-        typed.append(rng.choice(words))
-        sess.append(typed)
-    with ThreadPoolExecutor(max_workers=4) as ex:
-        got = list(ex.map(lambda a: pty_session(ctx, work, a[0], a[1]), enumerate(sess)))
-    path = C.write_cases("c18_l3.txt", ["\t".join(["sess"] + [C.enc(t) for t in typed]) for typed in sess])
+    n = 16 if ctx.thorough else 6
+    # fixed first sequence: the first line of process 3 equals the newest row by time (process 2's row has tsb 0)
+    seqs = [[{"k": "I", "typed": ["echo one >/dev/null"]}, {"k": "A", "line": "echo two", "now": False},
+             {"k": "I", "typed": ["echo one >/dev/null", "echo one >/dev/null", "echo two"]}]]
+    seqs += [gen_sequence(rng, i) for i in range(n)]
+    if ctx.replay_procs:
+        seqs = [ctx.replay_procs]
+    with ThreadPoolExecutor(max_workers=6) as ex:
+        got = list(ex.map(lambda a: run_sequence(ctx, work, a[0], a[1]), enumerate(seqs)))
+    path = C.write_cases("c18_l3.txt", ["\t".join(["procs"] + [C.enc(US.join(["I"] + p["typed"]) if p["k"] == "I" else
+                                                                     US.join(["A", p["line"]])) for p in procs]) for procs in seqs])
     mo = C.run_model(ctx.model["C18"], path)
-    for typed, g, m in zip(sess, got, mo):
+    for procs, (ok, g), m in zip(seqs, got, mo):
         want = [C.dec(x) for x in m.split("\t")] if m else []
-        # property oracle, independent of the model: no line with a leading space; no immediate repeat; text verbatim
-        prev = None
         exp = []
-        for t in typed:
-            if t.startswith(" ") or t == prev:
-                continue
-            exp.append(t)
-            prev = t
+        for p in procs:
+            exp += ref_session(p["typed"]) if p["k"] == "I" else [p["line"].strip(WS)]
         if want != exp:
-            V.violate(kind="correspondence", failing_input=False, function="session_run", input=typed, model=want, expected=exp)
+            V.violate(kind="correspondence", failing_input=False, function="db_procs/session_run", procs=procs,
+                      input=describe_procs(procs), model=want, expected=exp)
         if g != exp:
-            V.violate(kind="oracle", failing_input=True, input=typed, expected=exp, observed=g, entry="interactive pty session",
-                      note="rows recorded by an interactive session differ from: every line verbatim, except leading-space lines and repeats")
-        elif len(exp) < len(typed):
-            res.nontrivial("sess:" + "|".join(typed))
-    res.count("L3_pty_sessions", len(sess))
-    res.sample({"layer": "L3", "typed": sess[0], "recorded": got[0]})
+            if not ok and len(g) < len(exp) and g == exp[:len(g)] and not ctx.replay_procs:
+                # the pty did not show a prompt in time (overloaded machine): not a verdict about the shell
+                res.extra["L3_sequences_not_evaluated_timeout"] = res.extra.get("L3_sequences_not_evaluated_timeout", 0) + 1
+                continue
+            V.violate(kind="oracle", failing_input=True, procs=procs, input=describe_procs(procs), expected=exp, observed=g,
+                      entry="shell processes sharing one database (HISTORY_DELETE_DUPS=0)",
+                      note="rows in the database differ from: every submitted line once per submission, verbatim, except "
+                           "leading-space lines and immediate repeats within one session")
+        else:
+            res.nontrivial("procs:" + "|".join(describe_procs(procs)))
+    res.count("L3_process_sequences", len(seqs))
+    res.count("L3_processes", sum(len(s) for s in seqs))
+    res.sample({"layer": "L3", "procs": describe_procs(seqs[0]), "recorded": got[0][1]})
 
 
 def run(ctx, res):
@@ -574,11 +666,11 @@ def run(ctx, res):
                 "spaces and repeats. non-trivial = distinct stored text+directory, distinct non-empty listing, distinct "
                 "removed row, distinct known-class behaviour, distinct session with a skipped line" % (ALPHA,))
     known = C.known_findings("C18")
-    ctx.replay_ops, ctx.replay_layer = None, None
+    ctx.replay_ops, ctx.replay_layer, ctx.replay_procs = None, None, None
     if ctx.replay:
         import json
         r = json.load(open(ctx.replay))
-        ctx.replay_ops, ctx.replay_layer = r.get("ops"), r.get("layer")
+        ctx.replay_ops, ctx.replay_layer, ctx.replay_procs = r.get("ops"), r.get("layer"), r.get("procs")
     work = tempfile.mkdtemp(prefix="c18_")
     try:
         layer0(ctx, res)
